@@ -1,0 +1,28 @@
+//go:build verif
+
+package emulator
+
+// Contracts for the snesvc verifier (/verif). Comment-only; compiled only with -tags verif.
+
+//@ func (*System).GetPC
+//@   property C12
+//@   ensures ret1 == uint32(s.CPU.RK)<<16|uint32(s.CPU.PC)
+//@   assigns nothing
+
+//@ func (*System).SetPC
+//@   property C12
+//@   ensures uint32(s.CPU.RK)<<16|uint32(s.CPU.PC) == pc&0xFFFFFF
+//@   assigns s.CPU.RK, s.CPU.PC
+
+// RunUntil: terminates (decreases), steps only while cycles remain and the target has not been reached,
+// and reports whether the program counter equals the target on exit.
+//@ func (*System).RunUntil
+//@   property C12
+//@   requires maxCycles <= 0xFFFFFFFFFFFFFF00
+//@   ensures ret1 == (uint32(s.CPU.RK)<<16|uint32(s.CPU.PC) == targetPC)
+//@   ensures old(uint32(s.CPU.RK)<<16|uint32(s.CPU.PC)) == targetPC ==> ncalls("(*emulator/cpu65c816.CPU).Step") == 0
+//@   ensures maxCycles == 0 ==> ncalls("(*emulator/cpu65c816.CPU).Step") == 0
+//@   at call:Step:1 assert cycles < maxCycles && uint32(s.CPU.RK)<<16|uint32(s.CPU.PC) != targetPC
+//@   loop 1 invariant old(uint32(s.CPU.RK)<<16|uint32(s.CPU.PC)) == targetPC ==> ncalls("(*emulator/cpu65c816.CPU).Step") == 0
+//@   loop 1 decreases ite(cycles < maxCycles, maxCycles-cycles, 0)
+//@   loop 1 modifies s.CPU, s.Bus.EA, s.Bus.Write, oa
